@@ -9,7 +9,6 @@ import (
 	"os"
 	"strconv"
 
-	"github.com/mimecast/dtail/verifharness/internal/dt"
 	"github.com/mimecast/dtail/verifharness/internal/props"
 	"github.com/mimecast/dtail/verifharness/internal/vlib"
 )
@@ -64,25 +63,25 @@ func isFlagSet(name string) bool {
 	return set
 }
 
+// serverChild is set by the server worker build (tag w_server).
+var serverChild func(args []string)
+
 func child(args []string) {
 	if len(args) == 0 {
 		os.Exit(2)
 	}
-	switch args[0] {
-	case "server":
-		fs := flag.NewFlagSet("server", flag.ExitOnError)
-		cfg := fs.String("cfg", "none", "")
-		port := fs.Int("port", 2222, "")
-		lvl := fs.String("logLevel", "info", "")
-		logger := fs.String("logger", "stdout", "")
-		fs.Parse(args[1:])
-		dt.ServerMain(*cfg, *port, *lvl, *logger)
-	default:
-		fn, ok := props.Children[args[0]]
-		if !ok {
-			fmt.Fprintln(os.Stderr, "unknown child mode", args[0])
+	if args[0] == "server" {
+		if serverChild == nil {
+			fmt.Fprintln(os.Stderr, "this binary was built without the server worker")
 			os.Exit(2)
 		}
-		os.Exit(fn(args[1:]))
+		serverChild(args[1:])
+		return
 	}
+	fn, ok := props.Children[args[0]]
+	if !ok {
+		fmt.Fprintln(os.Stderr, "unknown child mode (worker not built into this binary):", args[0])
+		os.Exit(2)
+	}
+	os.Exit(fn(args[1:]))
 }
